@@ -333,11 +333,13 @@ func (vm *Type) Run(retResult bool) (value.Type, error) {
 				val = vm.fetch(instr.Src0(), instr.Src0Addr(), m, ds)
 			}
 
-			if val.IsNil() {
+			src1T := instr.Src1()
+
+			// a variable cannot be assigned a missing value; parking one in the
+			// temp register is no assignment, the operator that reads it reports it
+			if val.IsNil() && src1T != bytecode.AddrTmp {
 				return vm.dumpStack(ctxp, ip, value.ErrNil, val)
 			}
-
-			src1T := instr.Src1()
 
 			switch src1T {
 			case bytecode.AddrLcl:
